@@ -136,18 +136,37 @@ func (a *allocation) refreshPermissions() error {
 	}
 	// A request naming every peer grows with their number, and what does not fit
 	// the server's receive buffer (1600 bytes by default) is dropped without an
-	// answer: refresh in batches.
+	// answer: refresh in batches. The batches go out together, so that a slow
+	// transaction does not hold up the permissions of the batches behind it.
+	var (
+		wg   sync.WaitGroup
+		mu   sync.Mutex
+		errs []error
+	)
 	for len(addrs) > 0 {
 		n := min(len(addrs), maxPermissionsPerRequest)
-		if err := a.CreatePermissions(addrs[:n]...); err != nil {
-			if errors.Is(err, errTryAgain) {
-				return errTryAgain
-			}
-			a.log.Errorf("Fail to refresh permissions: %s", err)
-
-			return err
-		}
+		batch := addrs[:n]
 		addrs = addrs[n:]
+		wg.Add(1)
+		go func() {
+			defer wg.Done()
+			if err := a.CreatePermissions(batch...); err != nil {
+				mu.Lock()
+				errs = append(errs, err)
+				mu.Unlock()
+			}
+		}()
+	}
+	wg.Wait()
+	for _, err := range errs {
+		if errors.Is(err, errTryAgain) {
+			return errTryAgain
+		}
+	}
+	if len(errs) > 0 {
+		a.log.Errorf("Fail to refresh permissions: %s", errs[0])
+
+		return errs[0]
 	}
 	a.log.Debug("Refresh permissions successful")
 
